@@ -64,6 +64,8 @@ def run(name, pids):
     rc, out = sh("git -C /repo apply %s" % os.path.join(SEEDED, name, "patch.diff"))
     assert rc == 0, out
     res = m.setdefault("checks", {})
+    evdir = os.path.join(VERIF, "evidence"); bak = os.path.join(VERIF, ".work", "evidence.bak")
+    shutil.rmtree(bak, ignore_errors=True); os.makedirs(os.path.dirname(bak), exist_ok=True); shutil.copytree(evdir, bak)
     try:
         for pid in pids:
             t0 = time.time()
@@ -73,6 +75,7 @@ def run(name, pids):
             print(name, pid, "CAUGHT" if res[pid]["caught"] else "MISSED", viol[:2], res[pid]["tail"])
     finally:
         sh("git -C /repo checkout -- .")
+        shutil.rmtree(evdir, ignore_errors=True); shutil.copytree(bak, evdir)   # evidence must come from the unchanged tree
     save_meta(name, m)
 
 if __name__ == "__main__":
